@@ -42,6 +42,12 @@ META = {
                      "the original hard box for every run.",
                 note=PROOF_NOTE + " Assumes g/ginv map finite input to finite output (checked for the lambda bodies under C11). The internal-coordinate clause "
                      "(logged u inside the transformed box) is not yet claimed."),
+    "C02": dict(level="proof",
+                text="No infeasible point is evaluated or returned: feasibility is a ghost predicate over points; the candidate filter's postcondition, a precondition at every "
+                     "logger call site (initial point, noise test, initial design, every search and poll evaluation, final re-sampling) and loop invariants over incumbent, log, "
+                     "poll set and history iterates are discharged for all constraint regions, bounds, noise modes and seeds; the snapped start is feasible or rejected.",
+                note=PROOF_NOTE + " The user constraint is assumed to be a deterministic row-wise function (T5). IterationHistory.record is an assumed contract (bounded-checked). "
+                     "The constructor's first x0 check (before snapping) is covered by the bounded panel only."),
     "C04": dict(level="proof",
                 text="For deterministic targets the returned point is a logged evaluation with exactly the logged value and no logged value is lower: an invariant "
                      "(incumbent logged, minimal, fval == yval, fsd == 0) proved for the initial design, every search step, every poll loop iteration and the main loop, "
